@@ -7,10 +7,12 @@ META = {
                   "with theorems for all histories + differential correspondence with the real engine through the API and a "
                   "direct dump of the user db"),
     "level": "proof",
-    "level_text": ("Theorems C10.commit_plus_one / commit_frame / delete_marks / deleted_hidden / revive / "
-                   "assembled_phrase_stored / rank_no_worse_partial over the model of UserDictionary::UpdateEntry (fetch = pending "
-                   "writes of the open write batch, then the durable db; writes into the batch), CreateDictEntry, Memory::OnCommit grouping, Script/TableTranslator::"
-                   "Memorize and the user-before-system merge: proved for arbitrary dictionaries and histories. The model is run "
+    "level_text": ("Theorems C10.commit_plus_one (full strength: a key committed m times in a commit ends at |c|+m, an uncommitted one "
+                   "keeps its count), commit_count_fold, commit_frame(_code), delete_marks, deleted_hidden, revive, "
+                   "assembled_phrase_stored, table_commit_plus_one, rank_no_worse_partial (+ list-level rank_no_worse_list / "
+                   "_table_list) over the model of UserDictionary::UpdateEntry (fetch = pending writes of the open write batch, then the "
+                   "durable db; writes into the batch), CreateDictEntry, Memory::OnCommit grouping, Script/TableTranslator::Memorize and the "
+                   "user-before-system merge: proved for arbitrary dictionaries, prior states and compositions. The model is run "
                    "event-for-event against the real librime (script and table translators over generated dictionaries, and stock "
                    "luna_pinyin): it must reproduce the real grouping, every durable record (c, t exactly; d numerically) after every "
                    "API call and, on the synthetic schemas, the whole candidate list; the property clauses are also evaluated "
@@ -20,7 +22,11 @@ META = {
                    "the real formulas (and reports that plain monotonicity in dee is false at d = 20). The hand-written model is tied by "
                    "differential runs only (bounded by the generator). The clause 'an assembled phrase is offered as one candidate' is "
                    "read for translators that store the concatenated entry (script_translator); table_translator without encoder "
-                   "stores only the elements (+1 each), which is what the model says and the check compares. Trusted: Lean kernel, "
+                   "stores only the elements (+1 each), which is what the model says and the check compares. The ranking clause is read "
+                   "literally for every whole-input candidate in both styles; for a table-style composed sentence (no phrase stored) it "
+                   "fails when Poet recomposes another path of equal weight: theorem C10.table_sentence_rank_counterexample, open finding "
+                   "C10:rank:worse:table-sentence-recomposed (witness corpus/C10/table_sentence_recomposed.json, run first), and "
+                   "rank_no_worse_partial excludes that case explicitly. Trusted: Lean kernel, "
                    "LevelDB (ordered iteration, atomic batch), the harness's private-member read of the Db, sentence composition "
                    "(Poet) and system-dictionary order as oracles of the list prediction."),
     "design_ref": "DESIGN.md §2 M-kv, §3 C10",
@@ -471,13 +477,17 @@ class Eval:
             # rank / assembled: the same input typed again right after the commit
             if io["op"].startswith(("type ", "input ")) and (rank_watch or asm_watch):
                 if rank_watch and rank_watch[3] < i:
-                    inp, text, pos, _ = rank_watch
+                    inp, text, pos, _, table_sentence = rank_watch
                     if icd["input"] == inp:
                         self.stats["rank_checks"] += 1
                         now_pos = next((k for k, cnd in enumerate(icd["cands"]) if cnd[0] == text), None)
                         self.nontrivial.add(("rank", inp, text, pos, now_pos))
                         if now_pos is None or now_pos > pos:
-                            self.viols.append((i, "rank:worse", "after committing %s for input %s (offered at position %d) it is now %s" % (
+                            # the recorded open finding, narrowly: table style, the committed candidate was a composed sentence
+                            # (no phrase stored), and sentence composition now offers another text for the whole input
+                            recomposed = table_sentence and any(cnd[1] == "sentence" and cnd[0] != text and cnd[3] == len(unhex(inp))
+                                                                for cnd in icd["cands"][:1])
+                            self.viols.append((i, "rank:worse:table-sentence-recomposed" if recomposed else "rank:worse", "after committing %s for input %s (offered at position %d) it is now %s" % (
                                 show(text), show(inp), pos, "not offered" if now_pos is None else "at position %d" % now_pos)))
                     rank_watch = None
                 if asm_watch and asm_watch[2] < i:
@@ -513,16 +523,15 @@ class Eval:
         if not prev_cands or prev_cands["input"] == "-":
             return rank_watch, asm_watch
         inp = prev_cands["input"]
-        # the whole input was covered by one selected candidate taken from the list shown before
-        # (table style without encoder stores only the elements of a composed sentence, never the sentence: whether its text
-        # comes back is up to sentence composition, which the property itself sets apart — so there the clause is read for
-        # dictionary entries, kind p)
-        if len(real) == 1 and real[0][1] in ("ps" if self.style == "script" else "p") and real[0][0] == 3 \
-                and prev_cands["seg"] and prev_cands["seg"][0] == 0:
+        # the whole input was covered by one selected candidate taken from the list shown before (literal reading: a dictionary
+        # entry or a composed sentence, in either style)
+        if len(real) == 1 and real[0][1] in "ps" and real[0][0] == 3 and prev_cands["seg"] and prev_cands["seg"][0] == 0:
             text = real[0][2]
             pos = next((k for k, cnd in enumerate(prev_cands["cands"]) if cnd[0] == text and cnd[3] == len(unhex(inp))), None)
             if pos is not None:
-                return (inp, text, pos, self.stats["ops"] - 1), None
+                # table style without encoder stores no phrase for a composed sentence (only +1 on its elements)
+                table_sentence = self.style == "table" and real[0][1] == "s" and prev_cands["cands"][pos][1] == "sentence"
+                return (inp, text, pos, self.stats["ops"] - 1, table_sentence), None
         # assembled from several selections, all recognized, saved as one entry (script style stores the concatenation)
         if len(real) >= 2 and all(s[1] in "ps" for s in real) and real[-1][0] == 3 and all(s[0] >= 2 for s in real) \
                 and self.style == "script" and len(m_mem) == 1:
@@ -647,14 +656,32 @@ def ddmin(ops, fails, budget=40):
     return ops
 
 
-def first_problem(ev):
-    if ev.viols:
-        v = ev.viols[0]
-        return ("viol", v[1], v[0], v[2])
-    if ev.diffs:
+def known_open(clause):
+    k = vlib.known_status("C10", "C10:" + clause)
+    return bool(k and k.get("status") == "open")
+
+
+def problems(ev):
+    """what a history shows, one per distinct clause: property violations first; a model/implementation difference only
+    when no violation other than a recorded open finding explains it"""
+    out, seen = [], set()
+    for v in ev.viols:
+        if v[1] not in seen:
+            seen.add(v[1])
+            out.append(("viol", v[1], v[0], v[2]))
+    if ev.diffs and not any(not known_open(p[1]) for p in out):
         d = ev.diffs[0]
-        return ("diff", d[1], d[0], d[2])
-    return None
+        out.append(("diff", d[1], d[0], d[2]))
+    return out
+
+
+def first_problem(ev):
+    ps = problems(ev)
+    return ps[0] if ps else None
+
+
+def has_problem(ev, kind, clause):
+    return any(p[0] == kind and p[1] == clause for p in problems(ev))
 
 
 def run_one(c, exe, ws, schema, style, predict, rows, ops, tag="one"):
@@ -669,11 +696,10 @@ def report_history(c, exe, ws, schema, style, predict, rows, ops, prob, kindname
 
     def fails(t):
         r, ev, _ = run_one(c, exe, ws, schema, style, predict, rows, t, "sh")
-        p = first_problem(ev)
-        return p is not None and p[0] == kind and p[1] == clause
+        return has_problem(ev, kind, clause)
     small = ddmin(list(ops[:]), fails)
     r, ev, impl = run_one(c, exe, ws, schema, style, predict, rows, small, "sh")
-    p = first_problem(ev) or prob
+    p = next((q for q in problems(ev) if q[0] == kind and q[1] == clause), prob)
     replay = {"schema": schema, "style": style, "predict": predict, "dict_kind": kindname,
               "dict": [[t, cd, w] for t, cd, w in rows] if kindname != "luna" else [], "ops": small, "clause": p[1], "detail": p[3]}
     if p[0] == "viol":
@@ -771,8 +797,10 @@ def run(c):
         for h, ev in zip(hs, evs):
             add_stats(total, ev)
             nontrivial |= {(kindname,) + x for x in ev.nontrivial}
-            prob = first_problem(ev)
-            if prob:
+            for prob in problems(ev):
+                sig = "C10:%s" % prob[1] if prob[0] == "viol" else "C10:correspondence:%s" % prob[1]
+                if sig in c.known_hits or any(v[0] == sig for v in c.violations):
+                    continue          # already reported (with its minimised witness) in this run
                 report_history(c, exe, ws, schema, style, predict, rows, h, prob, kindname)
         if len(samples) < 5:
             k = next((i for i, l in enumerate(impl) if l.startswith("O db") and " n=0" not in l and "none" not in l), None)
